@@ -224,6 +224,12 @@ RB_CWDS = {            # thorough: (working directory, spelling) pairs -- the co
 }
 
 
+# the target reached through a symbolic link to its directory: (physical target, cwd, spelling, links [(name, text)])
+RB_LINKED = [("b/real/x.txt", "", "a/link/x.txt", (("a/link", "../b/real"),)),
+             ("b/real/x.txt", "a", "link/x.txt", (("a/link", "../b/real"),))]
+LINKS_OF = {(t, c, sp): links for t, c, sp, links in RB_LINKED}
+
+
 def in_project_candidates(target_rel):
     """Reference candidates for <PR>/<target_rel> with a fake root: returns (all candidates with do_dir relative
     to the project root or None when above it)."""
@@ -254,6 +260,9 @@ def rb_plan(tier):
             sp += RB_CWDS.get(rel, [])
         for cwd_rel, s in sp:
             plan.append((rel, cwd_rel, s, k))
+    for rel, cwd_rel, s, _links in RB_LINKED:
+        k = sum(1 for c, inside in in_project_candidates(rel) if inside is not None)
+        plan.append((rel, cwd_rel, s, k))
     return plan
 
 
@@ -279,6 +288,9 @@ def run_placement(job):
         CWD = os.path.join(PR, cwd_rel) if cwd_rel else PR
         os.makedirs(CWD, exist_ok=True)
         CWDr = os.path.realpath(CWD)
+        for lname, ltext in LINKS_OF.get((target_rel, cwd_rel, spelled), ()):
+            os.makedirs(os.path.dirname(os.path.join(PR, lname)), exist_ok=True)
+            os.symlink(ltext, os.path.join(PR, lname))
         cur = CWD
         for comp in spelled.split("/")[:-1]:
             if comp in ("", "."):
